@@ -428,6 +428,31 @@ pub fn flush_carrying_files(rng: &mut Rng) -> Vec<(Vec<u8>, u32)> {
     out
 }
 
+/// The same corner inside an ANIMATION: a highly compressible first frame (canvas size) whose last rows leave the inflater only
+/// when its data sequence is finished, followed by a small second frame with other pixels.  (A `next_frame` that moves on while
+/// rows of a NON-LAST frame are pending drops them and shifts every later frame: seeded change C13_7.)
+pub fn flush_carrying_anims(rng: &mut Rng) -> Vec<(Vec<u8>, u32)> {
+    use crate::refpng::*;
+    let mut out = vec![];
+    for (w, h, color, depth) in [(63u32, 518u32, 0u8, 8u8), (1024, 32, 0, 8), (31, 1030, 0, 8), (181, 181, 6, 8)] {
+        let mut img = Img::random(rng, color, depth, w, h);
+        for b in img.pixels.iter_mut() {
+            *b = 0;
+        }
+        let first = AnimFrame { x: 0, y: 0, img, delay: (1, 10), dispose: 0, blend: 0, filters: Filters::Uniform(0), deflater: Deflater::Level(6), split: Split::One };
+        let (fw, fh) = (rng.range(1, 9.min(w as u64)) as u32, rng.range(2, 9.min(h as u64)) as u32);
+        let mut img2 = Img::random(rng, color, depth, fw, fh);
+        for b in img2.pixels.iter_mut() {
+            *b |= 0x81;
+        }
+        let second = AnimFrame { x: 0, y: 0, img: img2, delay: (1, 10), dispose: 0, blend: 0, filters: Filters::Random, deflater: Deflater::Level(6), split: Split::One };
+        let a = Anim { color, depth, w, h, interlace: false, plays: 0, default_image: None, frames: vec![first, second] };
+        let (cs, _) = anim_chunks(&a, rng);
+        out.push((serialize(&cs), h));
+    }
+    out
+}
+
 /// The same corner with MORE image data than the header announces (tolerated by the decoder, like libpng: the surplus is
 /// discarded): the raw size lies just above 32 / 64 / 128 KiB and 1 .. 40000 surplus zero bytes follow.  With the whole file in
 /// one piece the output buffer of the inflater is exactly full when the last compressed byte has been taken in, what is
